@@ -8,6 +8,9 @@ CONSTANTS
   NOffer = 2
   NTake = 1
   Kinds = {"take", "poll"}
+  WithWaiters = FALSE
+  OneShot = FALSE
+  LoaderFreeOnly = FALSE
   WithClose = TRUE
   GuardedClose = TRUE
 INVARIANTS Inv_NoPanic
